@@ -268,7 +268,7 @@ class GeminiClient:
             raise ValueError(f"Redirect loop detected: {url}")
 
         # Check max redirects
-        if len(redirect_chain) >= max_redirects:
+        if len(redirect_chain) > max_redirects:
             raise ValueError(f"Maximum redirects ({max_redirects}) exceeded at: {url}")
 
         # Get the URL
